@@ -16,7 +16,7 @@ CACHE = os.path.join(VERIF, ".cache")
 COQ = os.path.join(VERIF, "coq")
 BIN = os.path.join(CACHE, "bin")
 GOENV = dict(os.environ, GOFLAGS="-mod=mod", GOPROXY="off", GOSUMDB="off", GOTOOLCHAIN="local",
-             GOCACHE=os.path.join(CACHE, "gocache"), CGO_ENABLED="0")
+             GOCACHE=os.environ.get("VERIF_GOCACHE", os.path.join(CACHE, "gocache")), CGO_ENABLED="0")
 
 FORBIDDEN = re.compile(r"\b(Admitted|admit|Axiom|Axioms|Parameter|Parameters|Conjecture|Conjectures|"
                        r"Hypothesis|Variable|Unset\s+Guard|bypass_check|Admit\s+Obligations|"
@@ -57,6 +57,7 @@ class BuildResult:
         self.frugal_ok = True
         self.frugal_log = ""
         self.gen_log = ""
+        self.go_bins = {}
 
 
 def _lock():
@@ -94,6 +95,7 @@ def build_coq(br, jobs=16):
             br.coq_ok = False
             br.coq_log += "translator failed:\n" + out + err
     rc, out, err = sh([os.path.join(COQ, "gen_project.sh")], timeout=120)
+    jobs = int(os.environ.get("VERIF_JOBS", jobs))
     rc, out, err = sh(["make", "-k", "-j%d" % jobs], cwd=COQ, timeout=3000)
     br.coq_log += out + err
     if rc != 0:
@@ -104,8 +106,13 @@ def build_coq(br, jobs=16):
 def build_go(br):
     os.makedirs(BIN, exist_ok=True)
     h = os.path.join(VERIF, "harness")
-    # go.sum: union of the repo's two module sums (kept current with the tree)
+    # go.mod from the template (replace directives point at the tree under test);
+    # go.sum: union of the repo's module sums (kept current with the tree)
     try:
+        mod = open(os.path.join(h, "go.mod.in")).read().replace("@REPO@", REPO)
+        cur = open(os.path.join(h, "go.mod")).read() if os.path.exists(os.path.join(h, "go.mod")) else ""
+        if mod != cur:
+            open(os.path.join(h, "go.mod"), "w").write(mod)
         sums = set()
         for p in (os.path.join(REPO, "go.sum"), os.path.join(REPO, "lib/go/go.sum"),
                   os.path.join(h, "go.sum.extra")):
@@ -116,11 +123,22 @@ def build_go(br):
         if new != cur:
             open(os.path.join(h, "go.sum"), "w").write(new)
     except OSError as e:
-        br.go_log += "go.sum: %s\n" % e
-    rc, out, err = sh(["go", "build", "-tags", "verif", "-o", os.path.join(BIN, "vh"), "./cmd/vh"],
-                      cwd=h, env=GOENV, timeout=1500)
-    br.go_log += out + err
-    br.go_ok = rc == 0
+        br.go_log += "go.mod/go.sum: %s\n" % e
+    # one binary per directory under harness/cmd, built separately so that one broken
+    # harness does not take the others down
+    br.go_bins = {}
+    cmds = sorted(d for d in os.listdir(os.path.join(h, "cmd")) if os.path.isdir(os.path.join(h, "cmd", d)))
+    for c in cmds:
+        rc, out, err = sh(["go", "build", "-tags", "verif", "-o", os.path.join(BIN, c), "./cmd/" + c],
+                          cwd=h, env=GOENV, timeout=1500)
+        br.go_bins[c] = (rc == 0)
+        if rc != 0:
+            br.go_log += "== cmd/%s ==\n%s%s\n" % (c, out, err)
+            try:
+                os.remove(os.path.join(BIN, c))
+            except OSError:
+                pass
+    br.go_ok = all(br.go_bins.values())
     rc, out, err = sh(["go", "build", "-o", os.path.join(BIN, "frugal"), "."], cwd=REPO, env=GOENV, timeout=900)
     br.frugal_log = out + err
     br.frugal_ok = rc == 0
